@@ -67,6 +67,14 @@ int main(void){
     alloc_aligned(dim,size,&c2,&off2);
     __CPROVER_assert(c2==c && off2==off && sq_live==1 && g_cache_n[dim]==0, "alloc_aligned: a cached block comes back with the offset recorded for it");
   }
+  /* any library block whatsoever (e.g. the unaligned new double[size] of the list / matrix constructors, offset 0): it may enter the cache only if it
+   * has the documented alignment, because alloc_aligned hands cached blocks out as "optimally aligned" without looking at them again */
+  { unsigned d2=nondet_unsigned(); __CPROVER_assume(2<=d2 && d2<=SQUIDS_MAX_HILBERT_DIM);
+    for(unsigned d=0; d<=SQUIDS_MAX_HILBERT_DIM; d++) g_cache_n[d]=0;
+    double* blk=sq_new(d2*d2+3); unsigned char o2=nondet_uchar(); __CPROVER_assume(o2<=3);
+    struct SU_vector v2; v2.dim=d2; v2.size=d2*d2; v2.components=blk+o2; v2.ptr_offset=o2; v2.isinit=true; v2.isinit_d=false;
+    deallocate_mem(&v2);
+    __CPROVER_assert(g_cache_n[d2]==0 || sq_addr(v2.components+(d2*d2)%2)%32==0, "C15: only blocks with the documented 32-byte alignment are cached (and later handed out as aligned)"); }
   __CPROVER_assert(0,"REACH end of harness");
   return 0;
 }
